@@ -87,7 +87,29 @@ def _(e, c, a):
     return -(1 << (w - 1)) if s else 0
 
 
-@model(r'num::<impl \w+>::(to_be_bytes|to_le_bytes|from_be_bytes|from_le_bytes|swap_bytes|to_be|to_le)$')
+@model(r'num::<impl \w+>::(to_be_bytes|to_le_bytes|to_ne_bytes|from_be_bytes|from_le_bytes|from_ne_bytes)$')
+def _(e, c, a):
+    ty = _ity(c); w = INT_W[ty]; n = w // 8
+    k = c.rstrip().split('::')[-1]
+    little = 'be' not in k                    # native endianness of the target (x86-64) is little
+    if k.startswith('to_'):
+        x = a[0]
+        if is_sym(x): bs = [z3.Extract(8 * i + 7, 8 * i, bv(x, w)) for i in range(n)]
+        else: bs = [(int(x) >> (8 * i)) & 0xff for i in range(n)]
+        if not little: bs = bs[::-1]
+        return Struct('[]', bs)
+    cells = deref_vec(a[0]).cells if not (isinstance(un(a[0]), Struct) and un(a[0]).name == '[]') else un(a[0]).f
+    bs = [c_.v for c_ in cells]
+    if not little: bs = bs[::-1]
+    if any(is_sym(b) for b in bs):
+        r = z3.Concat(*[bv(b, 8) for b in reversed(bs)]) if len(bs) > 1 else bv(bs[0], 8)
+        return r
+    r = sum(int(b) << (8 * i) for i, b in enumerate(bs))
+    if ty[0] == 'i' and r >= 1 << (w - 1): r -= 1 << w
+    return r
+
+
+@model(r'num::<impl \w+>::(swap_bytes|to_be|to_le)$')
 def _(e, c, a): raise Unmodelled(c)
 
 
